@@ -728,6 +728,16 @@ pub fn misc_json(m: u16) -> Value {
         "names": pick(&["short", "empty", "300 characters", "non-ASCII"], names)})
 }
 
+/// The display string `misc` puts into RP name and user display name (None: left as generated).
+pub fn misc_names(m: u16) -> Option<String> {
+    match misc_parts(m).4 {
+        1 => Some(String::new()),
+        2 => Some("n".repeat(300)),
+        3 => Some("\u{540d}\u{524d} \u{1F511}".to_string()),
+        _ => None,
+    }
+}
+
 fn misc_members_creation(o: &mut webauthn::PublicKeyCredentialCreationOptions, m: u16) {
     let (att, to, hints, fmts, names) = misc_parts(m);
     if att != 0 {
@@ -745,12 +755,8 @@ fn misc_members_creation(o: &mut webauthn::PublicKeyCredentialCreationOptions, m
         2 => Some(vec![webauthn::AttestationStatementFormatIdentifiers::Packed, webauthn::AttestationStatementFormatIdentifiers::None]),
         _ => None,
     };
-    let name = match names {
-        1 => Some(String::new()),
-        2 => Some("n".repeat(300)),
-        3 => Some("\u{540d}\u{524d} \u{1F511}".to_string()),
-        _ => None,
-    };
+    let _ = names;
+    let name = misc_names(m);
     if let Some(n) = name {
         o.rp.name = n.clone();
         o.user.display_name = n;
